@@ -182,7 +182,9 @@ fn c03(c: &Ctx) -> Result<(), String> {
     }
     // OP_RETURN outputs are never spent by the generated chains: burned iff it sits in one
     let in_op_return = c.out_value(op).map(|(_, o)| o).unwrap_or(false);
-    if in_op_return != (e.charms & BURNED != 0) {
+    // (an unbound inscription has no sat and sits at the unbound outpoint; it still gets the burned charm when
+    // its notional offset fell into an OP_RETURN output, so only bound inscriptions are judged here)
+    if !charm_unbound && in_op_return != (e.charms & BURNED != 0) {
       return Err(format!("[burned-mismatch] seq {k}: burned charm {} but location {op:?} op_return {in_op_return}", e.charms & BURNED != 0));
     }
     if let Some((spec, env)) = c.env_of(e) {
